@@ -220,7 +220,7 @@ class UnitSkipRule(Rule):
         self.skipped_rules = skipped_rules
 
     def __eq__(self, other):
-        return isinstance(other, type(self)) and self.skipped_rules == other.skipped_rules
+        return isinstance(other, type(self)) and super().__eq__(other) and self.skipped_rules == other.skipped_rules
 
     __hash__ = Rule.__hash__
 
